@@ -103,9 +103,10 @@ Section Code.
     : result (polyline F * list nat * list nat) :=
     if negb (length pts =? length idx)%nat then Raise ValueError else    (* vg.shape.check(indices, (k,)) *)
     let n := length (pv p) in
-    match wrap_all n idx with
-    | None => Raise IndexError                                            (* np.insert *)
-    | Some w =>
+    match wrap_indices n idx with
+    | WUnmodelled => Raise OtherError                                     (* see M_polyline_spec.wrap_indices *)
+    | WIndexError => Raise IndexError                                     (* np.insert *)
+    | WOk w =>
         let sorted := map fst (sorted_pairs w) in
         Ok (MkPolyline (np_insert (pv p) w pts) (pclosed p),
             map (fun i => (i + searchsorted_right sorted i)%nat) (seq 0 n),
